@@ -8,6 +8,7 @@ Model/Pipeline.lean (FLV and TS muxer workers).
 -/
 import IpcHub.Lemmas.ContainTotal
 import IpcHub.Lemmas.DepackRound265
+import IpcHub.Lemmas.PipelineRecover
 import IpcHub.Model.PipelineInst
 import IpcHub.Spec.Packetise
 namespace IpcHub.Props.C07
@@ -126,6 +127,7 @@ theorem c07_depack_source_facts :
     IpcHub.Gen.aacIndexLength = 3 ∧
     IpcHub.Gen.relativeNtpBody = ["diff := int64(rtptime) - int64(sc.RTPTime)", "return int64(float64(diff) * sc.RTPTimeUnit)"] ∧
     IpcHub.Gen.payloadBody = ["if p.Channel == ChannelVideo || p.Channel == ChannelAudio { end := len(p.Data) if p.Padding && end > p.PayloadOffset { if n := int(p.Data[end-1]); n > 0 && n <= end-p.PayloadOffset { end -= n } } return p.Data[p.PayloadOffset:end] }", "return nil"] ∧
+    IpcHub.Gen.payloadStripsPadding = true ∧
     IpcHub.Gen.depackFactsUnknown = [] := by
   and_intros <;> rfl
 
@@ -244,6 +246,60 @@ example :
     (∀ it ∈ items, legal264F it = true ∧ itemNoFiller it = true) ∧
     (vRun Depack.genCfg (fun _ => true) .h264 { ready := true } bad).1.frags.length = 1 := by
   decide
+
+/-- C07 (recovery at the FLV and MPEG-TS / HLS outputs, H.264).  Take ANY stream whose converters
+    are up (`Up m0 s`: demuxer goroutine alive and ready, both parameter sets `m0` stored, FLV
+    sequence headers written, FLV and TS worker goroutines alive), feed it ANY list `bad` of
+    packets — arbitrary bytes on the video, audio and both RTCP channels, in any order — and then
+    the packets of ANY well-formed H.264 stream (any packetisation decisions, as in C06).  Then
+    * after `bad` the stream is still up: no goroutine died, the parameter sets are untouched;
+    * the FLV worker emits exactly one video tag per unit of the well-formed stream, in order, with
+      the unit's bytes and its key-frame flag — nothing lost, nothing spliced with the garbage;
+    * the TS worker (H.264 + AAC streams: `hasTs`) emits exactly one TS frame per unit with the
+      unit's bytes and the Annex-B header built from the untouched parameter sets.
+    FULL STATEMENT: also H.265 (FLV), also filler units, also a stream that is not up yet (the
+    sequence headers still to come).  `_partial`: H.264 without filler data, from an up state; the
+    other cases are exercised by the harness (pipe correspondence + containment judge on tags and
+    TS frames) but not proved. -/
+theorem c07_flv_ts_recover_h264_partial (spsOk : Bytes → Bool) (ascOk hasTs : Bool) (m0 : VMeta) (hm : Full264 m0)
+    (s : St) (hu : Up m0 s) (bad : List In) (items : List Item) (seq0 : UInt16)
+    (hl : ∀ it ∈ items, legal264F it = true ∧ itemNoFiller it = true) :
+    let s1 := (runPipe Depack.genCfg Pipeline.genCfg spsOk ascOk hasTs s bad).1
+    let r := runPipe Depack.genCfg Pipeline.genCfg spsOk ascOk hasTs s1 ((packets264 seq0 items).map In.video)
+    Up m0 s1 ∧ Up m0 r.1 ∧
+    r.2.2.1 = (units items).map (fun u => Tag.video (isKey .h264 u.2) u.2) ∧
+    r.2.2.2 = (if hasTs then (units items).map (fun u => tsVideoOf Pipeline.genCfg m0 u.2) else []) := by
+  have hsafe := c07_gen_cfg_safe.1
+  have htc : Pipeline.genCfg.tsAacChecked = true := c07_gen_cfg_safe.2.2.2.2.1
+  obtain ⟨hu1, _, _, _, _⟩ := runPipe_up Depack.genCfg hsafe Pipeline.genCfg htc spsOk ascOk hasTs m0 hm bad s hu
+  obtain ⟨hu2, hf2, _, ht2, hs2⟩ := runPipe_up Depack.genCfg hsafe Pipeline.genCfg htc spsOk ascOk hasTs m0 hm
+    ((packets264 seq0 items).map In.video) _ hu1
+  have hfr : (runPipe Depack.genCfg Pipeline.genCfg spsOk ascOk hasTs
+      (runPipe Depack.genCfg Pipeline.genCfg spsOk ascOk hasTs s bad).1 ((packets264 seq0 items).map In.video)).2.1
+      = (units items).map (frameOf (runPipe Depack.genCfg Pipeline.genCfg spsOk ascOk hasTs s bad).1.demux.v.base) := by
+    rw [hf2, demuxRun_only_video Depack.genCfg hsafe spsOk _ _ hu1.dalive, hu1.codec]
+    obtain ⟨st', h, _⟩ := h264_roundtrip Depack.genCfg c07_round_cfg spsOk items _ seq0 hu1.ready hl
+    rw [h]
+  refine ⟨hu1, hu2, ?_, ?_⟩
+  · rw [ht2, hfr, flatMap_tagOf_units]
+  · rw [hs2, hfr]
+    cases hasTs
+    · rfl
+    · simp only [if_true]
+      exact flatMap_tsOf_units Pipeline.genCfg ascOk m0 _ _ (units_nonempty items (fun it h => (hl it h).1))
+
+/-- non-vacuity: an up stream (SDP parameter sets), a truncated STAP-A, RTCP garbage and a bad AU
+    header, then an IDR slice in two fragments and a P slice: two video tags, the first a key frame -/
+example :
+    let m0 : VMeta := { sps := [0x67, 0x42, 0x00, 0x1e], pps := [0x68, 0xce], widthKnown := true }
+    let s : St := { demux := { codec := .h264, hasAac := true, v := { vmeta := m0, ready := true } }, flv := { headerDone := true } }
+    let bad : List In := [.video ⟨9, 1, false, [0x78, 0x00, 0x05, 0x65]⟩, .vctl [0x80], .audio ⟨1, 1, true, [0xff, 0xff]⟩, .actl []]
+    let items : List Item := [.frag 3000 true [0x65, 1, 2, 3] [1], .single 6000 true [0x41, 9]]
+    Full264 m0 ∧ Up m0 s ∧
+    (runPipe Depack.genCfg Pipeline.genCfg (fun _ => true) true true
+      (runPipe Depack.genCfg Pipeline.genCfg (fun _ => true) true true s bad).1 ((packets264 7 items).map In.video)).2.2.1
+      = [Tag.video true [0x65, 1, 2, 3], Tag.video false [0x41, 9]] := by
+  refine ⟨⟨by decide, by decide⟩, ⟨rfl, rfl, rfl, rfl, rfl, rfl, rfl⟩, by decide⟩
 
 /-- C07 (recovery of the parameter sets): whatever an H.264 depacketizer has stored as SPS / PPS
     — nothing, or garbage from a damaged packet or a hostile sprop — and whether or not the SDP
